@@ -617,6 +617,67 @@ func c20MQ(c *hx.Ctx) {
 		}
 		c20MqScript(c, nctx, ops)
 	}
+	// 3b. ErtermEnc from every register state: k encodes (k = 0..140) under four biases, then ErtermEnc;
+	//     ct takes every value 1..12 (and 7 after a 0xFF byte) many times
+	for _, bias := range []int{2, 30, 50, 98} {
+		for k := 0; k <= 140; k++ {
+			ops := []int{9, 18, 46, 9, 17, 3, 9, 0, 4}
+			for i := 0; i < k; i++ {
+				ops = append(ops, 0, (i*7+k)%19, c20B((i*37+k*11)%100 < bias))
+			}
+			ops = append(ops, 2)
+			c20MqScript(c, 19, ops)
+			// and again after a restart, as T1 does between terminated passes
+			ops = append(ops, 3)
+			for i := 0; i < k%23; i++ {
+				ops = append(ops, 0, i%19, c20B((i*13+k)%100 < bias))
+			}
+			ops = append(ops, 2)
+			c20MqScript(c, 19, ops)
+			c.Count("mq:erterm-sweep")
+		}
+	}
+	// raw decoding past the end of the segment (sentinel guard of c50eb7d): 1-bits, no panic
+	for k := 0; k < 40; k++ {
+		data := c.R.Bytes(c.R.Range(0, 6))
+		nb := len(data)*8 + c.R.Range(1, 40)
+		var got []int
+		pd, _ := hx.Guard(func() {
+			d := mqc.NewRawDecoder(data)
+			for i := 0; i < nb; i++ {
+				got = append(got, d.RawDecode())
+			}
+		})
+		out := "ok " + c20IntsI(got)
+		if pd {
+			out = "panic"
+		}
+		c.Case(fmt.Sprintf("mq-raw %s %d", hx.Hex(data), nb), out)
+		c.Count("mq:raw-past-end")
+	}
+	// MQ decoding of arbitrary bytes, more decisions than the data holds: bytein stays inside the sentinel
+	for k := 0; k < 60; k++ {
+		data := c.R.Bytes(c.R.Range(0, 12))
+		if k%3 == 0 {
+			for i := range data {
+				if c.R.Intn(3) == 0 {
+					data[i] = 0xFF
+				}
+			}
+		}
+		nd := c.R.Range(1, 400)
+		cxs := make([]int, nd)
+		for i := range cxs {
+			cxs[i] = c.R.Intn(3)
+		}
+		bits, pd := c20MqDecode(3, data, cxs)
+		out := "ok " + c20IntsI(bits)
+		if pd {
+			out = "panic"
+		}
+		c.Case(fmt.Sprintf("mq-dec 3 %s %s", hx.Hex(data), c20IntsI(cxs)), out)
+		c.Count("mq:dec-arbitrary")
+	}
 	// 4. raw (bypass) segments: decode what BypassEncode wrote
 	for k := 0; k < n/2; k++ {
 		pre := c.R.Range(0, 60)
@@ -758,15 +819,9 @@ func c20T1One(c *hx.Ctx, w, h, orient, style int, x []int32, tag string) {
 		e.SetOrientation(orient)
 		passes, data, err = e.EncodeLayered(x, numPasses, 0, nil, uint8(style))
 	})
-	// One class for the one defect found so far (DecodeLayeredWithMode ignores the pass lengths unless
-	// TERMALL, so the raw segments of a LAZY block are read from the MQ segment); any other failing
-	// style gets its own class.
-	cls := func(kind string) string {
-		if style&t1.CblkStyleLazy != 0 && style&t1.CblkStyleTermAll == 0 && kind != "encode-fail" && kind != "passcount" {
-			return "t1-lazy-without-termall"
-		}
-		return fmt.Sprintf("t1-%s-style-%s", kind, c20StyleName(style))
-	}
+	// every failing style gets its own class (the LAZY-without-TERMALL defect, class
+	// t1-lazy-without-termall, was repaired in /repo 9151147: no class is expected to fail)
+	cls := func(kind string) string { return fmt.Sprintf("t1-%s-style-%s", kind, c20StyleName(style)) }
 	if p || err != nil {
 		c.Fail(hx.Failure{Class: cls("encode-fail"), What: fmt.Sprintf("EncodeLayered failed: %v %s", err, msg), Input: in})
 	} else if mb >= 0 {
@@ -831,6 +886,21 @@ func c20T1One(c *hx.Ctx, w, h, orient, style int, x []int32, tag string) {
 }
 
 func c20T1(c *hx.Ctx) {
+	// generated context tables vs the tables the package exports
+	zc, sc, spb := t1.GetZeroCodingLUT(), t1.GetSignContextLUT(), t1.GetSignPredictionLUT()
+	for i, v := range zc {
+		c.Case(fmt.Sprintf("t1-lut zc %d", i), fmt.Sprintf("ok %d", v))
+	}
+	for i, v := range sc {
+		c.Case(fmt.Sprintf("t1-lut sc %d", i), fmt.Sprintf("ok %d", v))
+	}
+	for i, v := range spb {
+		c.Case(fmt.Sprintf("t1-lut spb %d", i), fmt.Sprintf("ok %d", v))
+	}
+	c.Case("t1-lut zc 2048", "panic")
+	// regression anchors of the repaired class t1-lazy-without-termall (LAZY, no TERMALL)
+	c20T1One(c, 1, 1, 0, 1, []int32{16}, "anchor")
+	c20T1One(c, 2, 1, 0, 1, []int32{17, -16}, "anchor")
 	sizes := [][2]int{{1, 1}, {1, 2}, {2, 1}, {2, 2}, {3, 3}, {4, 4}, {5, 5}, {1, 64}, {64, 1}, {7, 9}, {4, 13}, {16, 16}, {3, 6}, {32, 32}, {64, 64}}
 	for si, sz := range sizes {
 		for orient := 0; orient < 4; orient++ {
